@@ -500,6 +500,7 @@ class ThreadCheck(LockCheck):
     kinds = ('epoch', 'id')
     seq_share = 0.0
     long_share = 0.08
+    deep_share = 0.0
     counts = {'quick': 360, 'thorough': 6000}
     corpus = 'thread'
     finding_tags = {}
@@ -535,7 +536,8 @@ class ThreadCheck(LockCheck):
                 bycap[cap][sid] = txt
         for cap in self.caps:
             for s_ in gen_thread.make_scenarios(self.seed, n, f't{cap}-{self.seed}-', cap, kinds=self.kinds,
-                                                long_share=self.long_share, seq_share=self.seq_share):
+                                                long_share=self.long_share, seq_share=self.seq_share,
+                                                deep_share=self.deep_share):
                 bycap[cap][s_.split()[1]] = s_
         for cap in self.caps:
             r_, st_ = common.run_scenarios(exes[cap], list(bycap[cap].values()))
@@ -614,7 +616,7 @@ class ThreadCheck(LockCheck):
             for cap in self.caps:
                 scen = {s_.split()[1]: s_ for s_ in gen_thread.make_scenarios(self.seed * 1000 + k, 500, f's{cap}-', cap,
                                                                               kinds=self.kinds, long_share=self.long_share,
-                                                                              seq_share=self.seq_share)}
+                                                                              seq_share=self.seq_share, deep_share=max(0.2, self.deep_share))}
                 results, _ = common.run_scenarios(exes[cap], list(scen.values()))
                 best = None
                 for sid in sorted(results):
@@ -694,6 +696,7 @@ class C17(ThreadCheck):
     categories = ['list']
     kinds = ('epoch',)
     long_share = 0.15
+    deep_share = 0.06
 
     def crash_relevant(self):
         return True
@@ -706,7 +709,9 @@ class C20(ThreadCheck):
     kinds = ('epoch',)
     seq_share = 1.0
     long_share = 0.2
+    deep_share = 0.08
     caps = [2, 3, 4]
+    counts = {'quick': 150, 'thorough': 4000}
 
 
 # =====================================================================================================
@@ -849,7 +854,8 @@ class ZipfCheck(Check):
             return None
         for k in range(1, 4):
             rng = random.Random(f'zipf-search-{self.seed}-{k}')
-            g = gen_zipf.ZipfGen(rng)
+            g = gen_zipf.ZipfGen(rng, max_exact_n=400000, max_approx_n=4000000)
+            self.ref_limit = 4000000
             cases = [g.pick_case(f'zs{k}-{i}') for i in range(300)]
             results, _, texts = self.run_cases(exe, g, cases, [g.throw_case(f'zst{k}-{i}') for i in range(6)])
             for sid in sorted(results):
